@@ -337,6 +337,14 @@ func (n *lazyNode) isNull() bool {
 		return true
 	}
 
+	// An already parsed node is null only if parsing "null" left it empty.
+	switch n.which {
+	case eDoc:
+		return n.doc == nil
+	case eAry:
+		return n.ary == nil
+	}
+
 	if n.raw == nil {
 		return true
 	}
@@ -345,6 +353,11 @@ func (n *lazyNode) isNull() bool {
 }
 
 func (n *lazyNode) equal(o *lazyNode) bool {
+	// A decoded JSON null is a nil node (or a raw "null"); it equals only null.
+	if n.isNull() || o.isNull() {
+		return n.isNull() && o.isNull()
+	}
+
 	if n.which == eRaw {
 		if !n.tryDoc() && !n.tryAry() {
 			if o.which != eRaw {
